@@ -70,8 +70,10 @@ Fixpoint find_semi (n : nat) (w : list Z) (i : nat) : option nat :=
 
 (* what is decided at an '&' (w starts with it):
    XChars out used: `used` characters of the input become `out`;
-   XStall: goto want_more;  XAbort: assert(val > 0) fails ("&#0;", "&#;") *)
-Inductive xres := XChars (out : list Z) (used : nat) | XStall | XAbort.
+   XStall: goto want_more.  A reference to the code point 0 ("&#0;", "&#;",
+   "&#x;") is no character: the '&' is copied verbatim like that of any other
+   unusable reference (the assert(val > 0) that stood there is gone). *)
+Inductive xres := XChars (out : list Z) (used : nat) | XStall.
 
 Definition verbatim : xres := XChars [38] 1.
 
@@ -86,7 +88,7 @@ Definition ref_at (w : list Z) : xres :=
             match strtoent (if hex then 16 else 10) (if hex then rest2 else rest) 0 O with
             | NErr => verbatim
             | NEnd => XStall
-            | NVal v n => if v =? 0 then XAbort else XChars (utf8_of v) ((if hex then 3 else 2) + n)
+            | NVal v n => if v =? 0 then verbatim else XChars (utf8_of v) ((if hex then 3 else 2) + n)
             end
         end
       else
@@ -112,24 +114,23 @@ Definition ref_at (w : list Z) : xres :=
 
 (* the conversion loop.  [skip]: characters of a reference already converted
    that are still to be passed over.  Result: output, number of input
-   characters converted, aborted? *)
-Fixpoint conv (final : bool) (w : list Z) (skip : nat) : list Z * nat * bool :=
+   characters converted. *)
+Fixpoint conv (final : bool) (w : list Z) (skip : nat) : list Z * nat :=
   match w with
-  | [] => ([], O, false)
+  | [] => ([], O)
   | ch :: tl =>
       match skip with
-      | S s => match conv final tl s with (o, k, e) => (o, S k, e) end
+      | S s => match conv final tl s with (o, k) => (o, S k) end
       | O =>
           if ch =? 38 then
             match ref_at w with
             | XChars out used =>
-                match conv final tl (used - 1) with (o, k, e) => (out ++ o, S k, e) end
+                match conv final tl (used - 1) with (o, k) => (out ++ o, S k) end
             | XStall =>
-                if final then match conv final tl O with (o, k, e) => (38 :: o, S k, e) end
-                else ([], O, false)
-            | XAbort => ([], O, true)
+                if final then match conv final tl O with (o, k) => (38 :: o, S k) end
+                else ([], O)
             end
-          else match conv final tl O with (o, k, e) => (ch :: o, S k, e) end
+          else match conv final tl O with (o, k) => (ch :: o, S k) end
       end
   end.
 
@@ -139,20 +140,12 @@ Fixpoint find_lt (w : list Z) (i : nat) : option nat :=
   | ch :: tl => if ch =? 60 then Some i else find_lt tl (S i)
   end.
 
-(* context: the string decoded so far (st->buf).  FAIL stands for the abort
-   of the C on a reference to the code point 0. *)
+(* context: the string decoded so far (st->buf).  The reader never fails:
+   whatever the text, it is converted (entref_total in ResumeXProofs.v). *)
 Definition entref_step (acc : list Z) (w : list Z) : code * nat * list Z :=
   match find_lt w O with
-  | Some i =>
-      match conv true (firstn i w) O with
-      | (o, k, false) => (OK, k, acc ++ o)
-      | (o, k, true) => (FAIL, k, acc ++ o)
-      end
-  | None =>
-      match conv false w O with
-      | (o, k, false) => (MORE, k, acc ++ o)
-      | (o, k, true) => (FAIL, k, acc ++ o)
-      end
+  | Some i => match conv true (firstn i w) O with (o, k) => (OK, k, acc ++ o) end
+  | None => match conv false w O with (o, k) => (MORE, k, acc ++ o) end
   end.
 
 (* what OCTET_STRING_encode_xer_utf8 writes for the three characters it escapes *)
